@@ -1,1 +1,701 @@
-(* C17 stub: to be written *)
+(* C17 -- proofs about Model/Stats.v.
+   Part 1: finite sums, real part, derivations of a field with conjugation.
+   Part 2: inverse matrices (uniqueness, derivative of the inverse) on index functions.
+   Part 3: the model functions (lists) against their defining formulas.
+   Part 4: the executable instance, the refutation witness for the Hessian term of confint, menu, t table. *)
+From Coq Require Import List ZArith QArith Qabs Qcanon Lia Bool Arith Ring.
+From EPG Require Import Scalar QI State ListLemmas StatsTables Stats.
+Import ListNotations.
+
+Section Sums.
+Variable F : FieldOps.
+Hypothesis L : FieldLaws F.
+Add Ring Kr : (k_ring F (f_scal F L)).
+Open Scope K_scope.
+Notation LS := (f_scal F L).
+
+Lemma ksum_ext n (f g : nat -> F) : (forall i, (i < n)%nat -> f i = g i) -> ksum n f = ksum n g.
+Proof.
+  induction n; simpl; intros H; [reflexivity|].
+  rewrite IHn by (intros; apply H; lia). rewrite (H n) by lia. reflexivity.
+Qed.
+
+Lemma ksum_0 n : ksum n (fun _ => @k0 F) = k0.
+Proof. induction n; simpl; [reflexivity|]. rewrite IHn. ring. Qed.
+
+Lemma ksum_add n (f g : nat -> F) : ksum n (fun i => f i + g i) = ksum n f + ksum n g.
+Proof. induction n; simpl; [ring|]. rewrite IHn. ring. Qed.
+
+Lemma ksum_mul_l n (c : F) f : ksum n (fun i => c * f i) = c * ksum n f.
+Proof. induction n; simpl; [ring|]. rewrite IHn. ring. Qed.
+
+Lemma ksum_mul_r n (c : F) f : ksum n (fun i => f i * c) = ksum n f * c.
+Proof. induction n; simpl; [ring|]. rewrite IHn. ring. Qed.
+
+Lemma ksum_opp n (f : nat -> F) : ksum n (fun i => - f i) = - ksum n f.
+Proof. induction n; simpl; [ring|]. rewrite IHn. ring. Qed.
+
+Lemma ksum_swap n m (f : nat -> nat -> F) :
+  ksum n (fun i => ksum m (fun j => f i j)) = ksum m (fun j => ksum n (fun i => f i j)).
+Proof.
+  induction n; simpl.
+  - now rewrite ksum_0.
+  - rewrite IHn. now rewrite <- ksum_add.
+Qed.
+
+Lemma ksum_conj n (f : nat -> F) : kconj (ksum n f) = ksum n (fun i => kconj (f i)).
+Proof.
+  induction n; simpl; [apply (conj_0 F LS)|].
+  rewrite (conj_add F LS), IHn. reflexivity.
+Qed.
+
+Lemma kdelta_eq i : @kdelta F i i = k1.
+Proof. unfold kdelta. now rewrite Nat.eqb_refl. Qed.
+Lemma kdelta_neq i j : i <> j -> @kdelta F i j = k0.
+Proof. unfold kdelta. intros H. now apply Nat.eqb_neq in H as ->. Qed.
+Lemma kdelta_sym i j : @kdelta F i j = kdelta j i.
+Proof. unfold kdelta. now rewrite Nat.eqb_sym. Qed.
+
+Lemma ksum_delta_out n i (f : nat -> F) : (n <= i)%nat -> ksum n (fun k => kdelta i k * f k) = k0.
+Proof.
+  intros H. rewrite (ksum_ext n _ (fun _ => k0)).
+  - apply ksum_0.
+  - intros k Hk. rewrite kdelta_neq by lia. ring.
+Qed.
+
+Lemma ksum_delta_l n i (f : nat -> F) : (i < n)%nat -> ksum n (fun k => kdelta i k * f k) = f i.
+Proof.
+  induction n; intros H; [lia|]. simpl.
+  destruct (Nat.eq_dec i n) as [->|Hne].
+  - rewrite ksum_delta_out by lia. rewrite kdelta_eq. ring.
+  - rewrite IHn by lia. rewrite kdelta_neq by lia. ring.
+Qed.
+
+Lemma ksum_delta_r n j (f : nat -> F) : (j < n)%nat -> ksum n (fun k => f k * kdelta k j) = f j.
+Proof.
+  intros H. rewrite <- (ksum_delta_l n j f H). apply ksum_ext. intros k _.
+  rewrite (kdelta_sym k j). ring.
+Qed.
+
+(* ---- real part *)
+Lemma khalf_real : kconj (@khalf F) = khalf.
+Proof.
+  assert (H : kconj (@khalf F) + kconj khalf = k1).
+  { rewrite <- (conj_add F LS), (khalf_2 F L). apply (conj_1 F LS). }
+  transitivity ((kconj (@khalf F) + kconj khalf) * khalf).
+  - transitivity (kconj (@khalf F) * (khalf + khalf)); [|ring].
+    rewrite (khalf_2 F L). ring.
+  - rewrite H. ring.
+Qed.
+
+Lemma kre_add (x y : F) : kre (x + y) = kre x + kre y.
+Proof. unfold kre. rewrite (conj_add F LS). ring. Qed.
+Lemma kre_opp (x : F) : kre (- x) = - kre x.
+Proof. unfold kre. rewrite (conj_opp F LS). ring. Qed.
+Lemma kre_sub (x y : F) : kre (x - y) = kre x - kre y.
+Proof. unfold kre. rewrite (conj_sub F LS). ring. Qed.
+Lemma kre_0 : kre (@k0 F) = k0.
+Proof. unfold kre. rewrite (conj_0 F LS). ring. Qed.
+Lemma kre_conj (x : F) : kre (kconj x) = kre x.
+Proof. unfold kre. rewrite (conj_invol F LS). ring. Qed.
+Lemma kre_real_mul (c x : F) : kconj c = c -> kre (c * x) = c * kre x.
+Proof. intros H. unfold kre. rewrite (conj_mul F LS), H. ring. Qed.
+Lemma kre_is_real (x : F) : kconj (kre x) = kre x.
+Proof.
+  unfold kre. rewrite (conj_mul F LS), (conj_add F LS), (conj_invol F LS), khalf_real. ring.
+Qed.
+Lemma kre_of_real (x : F) : kconj x = x -> kre x = x.
+Proof.
+  intros H. unfold kre. rewrite H.
+  transitivity ((khalf + khalf) * x); [ring|]. rewrite (khalf_2 F L). ring.
+Qed.
+Lemma kre_kre (x : F) : kre (kre x) = kre x.
+Proof. apply kre_of_real, kre_is_real. Qed.
+Lemma ksum_kre n (f : nat -> F) : kre (ksum n f) = ksum n (fun i => kre (f i)).
+Proof. induction n; simpl; [apply kre_0|]. now rewrite kre_add, IHn. Qed.
+
+Lemma kinv_r (x : F) : x <> k0 -> x * kinv x = k1.
+Proof. intros H. rewrite <- (kinv_l F L x H). ring. Qed.
+
+Lemma conj_kinv_real (s : F) : s <> k0 -> kconj s = s -> kconj (kinv s) = kinv s.
+Proof.
+  intros Hs Hr.
+  assert (H : kconj (kinv s) * s = k1).
+  { rewrite <- Hr at 2. rewrite <- (conj_mul F LS), (kinv_l F L s Hs). apply (conj_1 F LS). }
+  transitivity (kconj (kinv s) * s * kinv s).
+  - transitivity (kconj (kinv s) * (s * kinv s)); [|ring]. rewrite (kinv_r s Hs). ring.
+  - rewrite H. ring.
+Qed.
+
+(* ---- derivations commuting with conjugation *)
+Record Deriv (d : F -> F) : Prop := mkDeriv {
+  d_add : forall x y, d (x + y) = d x + d y;
+  d_mul : forall x y, d (x * y) = d x * y + x * d y;
+  d_conj : forall x, d (kconj x) = kconj (d x)
+}.
+
+Lemma plus_self_0 (a : F) : a = a + a -> a = k0.
+Proof. intros H. transitivity (a + a - a); [ring|]. rewrite <- H. ring. Qed.
+
+Section D.
+Variable d : F -> F.
+Hypothesis D : Deriv d.
+
+Lemma d_0 : d k0 = k0.
+Proof. apply plus_self_0. rewrite <- (d_add d D). f_equal. ring. Qed.
+Lemma d_1 : d k1 = k0.
+Proof.
+  apply plus_self_0. transitivity (d (k1 * k1)); [f_equal; ring|].
+  rewrite (d_mul d D). ring.
+Qed.
+Lemma d_opp x : d (- x) = - d x.
+Proof.
+  assert (H : d x + d (- x) = k0).
+  { rewrite <- (d_add d D). replace (x + - x) with (@k0 F) by ring. apply d_0. }
+  transitivity (d x + d (- x) - d x); [ring|]. rewrite H. ring.
+Qed.
+Lemma d_sub x y : d (x - y) = d x - d y.
+Proof. replace (x - y) with (x + - y) by ring. rewrite (d_add d D), d_opp. ring. Qed.
+Lemma d_ksum n f : d (ksum n f) = ksum n (fun i => d (f i)).
+Proof. induction n; simpl; [apply d_0|]. now rewrite (d_add d D), IHn. Qed.
+Lemma d_kdelta i j : d (kdelta i j) = k0.
+Proof. unfold kdelta. destruct (Nat.eqb i j); [apply d_1|apply d_0]. Qed.
+Lemma d_khalf : d khalf = k0.
+Proof.
+  assert (H : d khalf + d khalf = k0).
+  { rewrite <- (d_add d D), (khalf_2 F L). apply d_1. }
+  transitivity (khalf * (d khalf + d khalf)).
+  - transitivity ((khalf + khalf) * d khalf); [|ring]. rewrite (khalf_2 F L). ring.
+  - rewrite H. ring.
+Qed.
+Lemma d_kre x : d (kre x) = kre (d x).
+Proof.
+  unfold kre. rewrite (d_mul d D), d_khalf, (d_add d D), (d_conj d D). ring.
+Qed.
+Lemma d_kinv_const s : s <> k0 -> d s = k0 -> d (kinv s) = k0.
+Proof.
+  intros Hs Hd.
+  assert (H : d (kinv s) * s = k0).
+  { transitivity (d (kinv s * s)).
+    - rewrite (d_mul d D), Hd. ring.
+    - rewrite (kinv_l F L s Hs). apply d_1. }
+  transitivity (d (kinv s) * s * kinv s).
+  - transitivity (d (kinv s) * (s * kinv s)); [|ring]. rewrite (kinv_r s Hs). ring.
+  - rewrite H. ring.
+Qed.
+Lemma d_const_mul c x : d c = k0 -> d (c * x) = c * d x.
+Proof. intros H. rewrite (d_mul d D), H. ring. Qed.
+End D.
+
+(* ================= Part 2: inverse matrices as index functions ================= *)
+Definition fmul (p : nat) (A B : nat -> nat -> F) (i j : nat) : F := ksum p (fun k => A i k * B k j).
+Definition is_rinv (p : nat) (A B : nat -> nat -> F) : Prop :=
+  forall i j, (i < p)%nat -> (j < p)%nat -> fmul p A B i j = kdelta i j.
+
+Lemma fmul_assoc p A B C i j :
+  ksum p (fun k => fmul p A B i k * C k j) = ksum p (fun k => A i k * fmul p B C k j).
+Proof.
+  unfold fmul.
+  rewrite (ksum_ext p _ (fun k => ksum p (fun m => A i m * B m k * C k j)))
+    by (intros; now rewrite ksum_mul_r).
+  rewrite ksum_swap. apply ksum_ext. intros m _.
+  rewrite <- ksum_mul_l. apply ksum_ext. intros k _. ring.
+Qed.
+
+Section Inverse.
+Variables (p : nat) (A B : nat -> nat -> F).
+Hypothesis AB : is_rinv p A B.
+Hypothesis BA : is_rinv p B A.
+
+(* a right inverse of A is THE inverse *)
+Lemma inv_unique B' : is_rinv p A B' -> forall i j, (i < p)%nat -> (j < p)%nat -> B' i j = B i j.
+Proof.
+  intros AB' i j Hi Hj.
+  transitivity (ksum p (fun k => fmul p B A i k * B' k j)).
+  - rewrite (ksum_ext p _ (fun k => kdelta i k * B' k j)) by (intros k Hk; now rewrite (BA i k Hi Hk)).
+    now rewrite ksum_delta_l.
+  - rewrite fmul_assoc.
+    rewrite (ksum_ext p _ (fun k => B i k * kdelta k j)) by (intros k Hk; now rewrite (AB' k j Hk Hj)).
+    now rewrite ksum_delta_r.
+Qed.
+
+Variable d : F -> F.
+Hypothesis D : Deriv d.
+
+(* d(A B) = 0 entrywise *)
+Lemma d_prod_zero i j : (i < p)%nat -> (j < p)%nat ->
+  ksum p (fun k => d (A i k) * B k j) + ksum p (fun k => A i k * d (B k j)) = k0.
+Proof.
+  intros Hi Hj. rewrite <- ksum_add.
+  rewrite (ksum_ext p _ (fun k => d (A i k * B k j))) by (intros; now rewrite (d_mul d D)).
+  rewrite <- (d_ksum d D). fold (fmul p A B i j). rewrite (AB i j Hi Hj). apply (d_kdelta d D).
+Qed.
+
+(* dB = - B dA B *)
+Lemma d_inverse i j : (i < p)%nat -> (j < p)%nat ->
+  d (B i j) = - ksum p (fun k => ksum p (fun l => B i k * d (A k l) * B l j)).
+Proof.
+  intros Hi Hj.
+  (* dB_ij = sum_k (BA)_ik dB_kj = sum_m B_im (sum_k A_mk dB_kj) = - sum_m B_im sum_k dA_mk B_kj *)
+  transitivity (ksum p (fun k => fmul p B A i k * d (B k j))).
+  { rewrite (ksum_ext p _ (fun k => kdelta i k * d (B k j))) by (intros k Hk; now rewrite (BA i k Hi Hk)).
+    now rewrite ksum_delta_l. }
+  rewrite (fmul_assoc p B A (fun k j => d (B k j)) i j).
+  rewrite (ksum_ext p _ (fun m => - ksum p (fun l => B i m * d (A m l) * B l j))).
+  - apply ksum_opp.
+  - intros m Hm. unfold fmul.
+    assert (H := d_prod_zero m j Hm Hj).
+    transitivity (B i m * (ksum p (fun k => d (A m k) * B k j) + ksum p (fun k => A m k * d (B k j))
+                           - ksum p (fun k => d (A m k) * B k j))); [ring|].
+    rewrite H. rewrite <- ksum_opp.
+    transitivity (B i m * - ksum p (fun k => d (A m k) * B k j)); [ring|].
+    rewrite <- ksum_opp, <- ksum_mul_l. apply ksum_ext. intros l _. ring.
+Qed.
+
+(* d tr(W B) = - tr(W B dA B) for constant weights *)
+Lemma d_wtrace (w : nat -> F) : (forall a, (a < p)%nat -> d (w a) = k0) ->
+  d (ksum p (fun a => w a * B a a)) =
+  - ksum p (fun a => ksum p (fun q => ksum p (fun r => w a * B a q * d (A q r) * B r a))).
+Proof.
+  intros Hw. rewrite (d_ksum d D). rewrite <- ksum_opp. apply ksum_ext. intros a Ha.
+  rewrite (d_const_mul d D _ _ (Hw a Ha)), (d_inverse a a Ha Ha).
+  transitivity (- (w a * ksum p (fun k => ksum p (fun l => B a k * d (A k l) * B l a)))); [ring|].
+  f_equal. rewrite <- ksum_mul_l. apply ksum_ext. intros q _.
+  rewrite <- ksum_mul_l. apply ksum_ext. intros r _. ring.
+Qed.
+End Inverse.
+
+(* d Re(J^H J)_ab = Re(dJ^H J + J^H dJ)_ab *)
+Lemma d_gram d (D : Deriv d) n (J : nat -> nat -> F) a b :
+  d (kre (ksum n (fun k => kconj (J k a) * J k b))) =
+  kre (ksum n (fun k => kconj (d (J k a)) * J k b) + ksum n (fun k => kconj (J k a) * d (J k b))).
+Proof.
+  rewrite (d_kre d D), (d_ksum d D). f_equal. rewrite <- ksum_add. apply ksum_ext. intros k _.
+  now rewrite (d_mul d D), (d_conj d D).
+Qed.
+
+(* ================= Part 3: the list model ================= *)
+Lemma mget_mtab r c (f : nat -> nat -> F) i j : (i < r)%nat -> (j < c)%nat -> mget (mtab r c f) i j = f i j.
+Proof. intros Hi Hj. unfold mget, mtab. rewrite nth_tab by exact Hi. now rewrite nth_tab. Qed.
+Lemma t3get_t3tab a b c (f : nat -> nat -> nat -> F) i j k :
+  (i < a)%nat -> (j < b)%nat -> (k < c)%nat -> t3get (t3tab a b c f) i j k = f i j k.
+Proof. intros Hi Hj Hk. unfold t3get, t3tab. rewrite nth_tab by exact Hi. rewrite nth_tab by exact Hj. now rewrite nth_tab. Qed.
+Lemma vget_tab n (f : nat -> F) i : (i < n)%nat -> vget (tab n f) i = f i.
+Proof. intros. unfold vget. now apply nth_tab. Qed.
+Lemma vget_map_opp (v : list F) i : (i < length v)%nat -> vget (map kopp v) i = - vget v i.
+Proof.
+  intros H. unfold vget. rewrite (nth_indep _ k0 (kopp k0)) by now rewrite map_length.
+  now rewrite map_nth.
+Qed.
+
+(* the defining Fisher matrix Re(J^H J)/sigma2 as an index function *)
+Definition fisher_spec (n : nat) (sigma2 : F) (J : mat F) (a b : nat) : F :=
+  kinv sigma2 * kre (ksum n (fun k => kconj (mget J k a) * mget J k b)).
+
+Lemma fisher_entries n p sigma2 J a b : (a < p)%nat -> (b < p)%nat ->
+  mget (fisher n p sigma2 J) a b = fisher_spec n sigma2 J a b.
+Proof.
+  intros Ha Hb. unfold fisher, gram, fisher_spec. rewrite mget_mtab by assumption. now rewrite mget_mtab.
+Qed.
+
+Lemma is_rinv_ext p (A A' B B' : nat -> nat -> F) :
+  (forall i j, (i < p)%nat -> (j < p)%nat -> A i j = A' i j) ->
+  (forall i j, (i < p)%nat -> (j < p)%nat -> B i j = B' i j) ->
+  is_rinv p A B -> is_rinv p A' B'.
+Proof.
+  intros HA HB H i j Hi Hj. rewrite <- (H i j Hi Hj). unfold fmul. apply ksum_ext.
+  intros k Hk. now rewrite (HA i k Hi Hk), (HB k j Hk Hj).
+Qed.
+
+Section Crlb.
+Variable inv : mat F -> mat F.
+Variables (n p : nat) (J : mat F) (W : option (list F)) (sigma2 : F).
+Let A := fisher n p sigma2 J.
+(* numpy.linalg.inv returns a two-sided inverse of the Fisher matrix (non-singular case) *)
+Hypothesis inv_r : is_rinv p (mget A) (mget (inv A)).
+Hypothesis inv_l : is_rinv p (mget (inv A)) (mget A).
+
+Lemma crlb_unfold : crlb inv n p J W sigma2 = ksum p (fun a => wget W a * mget (inv A) a a).
+Proof.
+  unfold crlb, mtrace, wscale, crlb_lb. fold A. apply ksum_ext. intros a Ha. now rewrite mget_mtab.
+Qed.
+
+(* crlb = tr(W B) for EVERY right inverse B of Re(J^H J)/sigma2 *)
+Theorem crlb_formula (B : nat -> nat -> F) :
+  is_rinv p (fisher_spec n sigma2 J) B ->
+  crlb inv n p J W sigma2 = ksum p (fun a => wget W a * B a a).
+Proof.
+  intros HB. rewrite crlb_unfold. apply ksum_ext. intros a Ha. f_equal. symmetry.
+  apply (inv_unique p (mget A) (mget (inv A)) inv_l B); try assumption.
+  apply (is_rinv_ext p (fisher_spec n sigma2 J) (mget A) B B); auto.
+  intros i j Hi Hj. symmetry. now apply fisher_entries.
+Qed.
+
+Theorem crlb_split_diag a : (a < p)%nat ->
+  forall B, is_rinv p (fisher_spec n sigma2 J) B ->
+  vget (crlb_split inv n p J W sigma2) a = B a a * wget W a.
+Proof.
+  intros Ha B HB. unfold crlb_split, crlb_lb. fold A. rewrite vget_tab by exact Ha.
+  assert (E : mget (inv A) a a = B a a).
+  { symmetry. apply (inv_unique p (mget A) (mget (inv A)) inv_l B); try assumption.
+    apply (is_rinv_ext p (fisher_spec n sigma2 J) (mget A) B B); auto.
+    intros i j Hi Hj. symmetry. now apply fisher_entries. }
+  destruct W; simpl; rewrite E; [reflexivity|ring].
+Qed.
+
+(* sum of the split bounds = the cost *)
+Lemma crlb_split_sum : ksum p (fun a => vget (crlb_split inv n p J W sigma2) a) = crlb inv n p J W sigma2.
+Proof.
+  rewrite crlb_unfold. apply ksum_ext. intros a Ha. unfold crlb_split, crlb_lb. fold A.
+  rewrite vget_tab by exact Ha. destruct W; simpl; ring.
+Qed.
+
+(* ---- gradient *)
+Variables (nx : nat) (H : ten3 F).
+Variable dd : nat -> F -> F.                 (* one derivation per gradient direction x *)
+Hypothesis DD : forall x, (x < nx)%nat -> Deriv (dd x).
+(* H holds the derivatives of the entries of J *)
+Hypothesis H_is_dJ : forall x k a, (x < nx)%nat -> (k < n)%nat -> (a < p)%nat ->
+  t3get H k a x = dd x (mget J k a).
+(* sigma2 and the weights are real constants *)
+Hypothesis sigma2_real : kconj sigma2 = sigma2.
+Hypothesis sigma2_nz : sigma2 <> k0.
+Hypothesis sigma2_const : forall x, (x < nx)%nat -> dd x sigma2 = k0.
+Hypothesis W_const : forall x a, (x < nx)%nat -> (a < p)%nat -> dd x (wget W a) = k0.
+
+(* the symmetrised, real HJ array of the code is d(Fisher) *)
+Lemma hj_is_dfisher x q r : (x < nx)%nat -> (q < p)%nat -> (r < p)%nat ->
+  kre (t3get (hj2 p nx (hj1 n p nx H J sigma2)) q r x) = dd x (mget A q r).
+Proof.
+  intros Hx Hq Hr. pose proof (DD x Hx) as D.
+  unfold A. rewrite (fisher_entries n p sigma2 J q r Hq Hr). unfold fisher_spec.
+  rewrite (d_const_mul (dd x) D _ _ (d_kinv_const (dd x) D sigma2 sigma2_nz (sigma2_const x Hx))).
+  rewrite (d_gram (dd x) D n (mget J) q r).
+  unfold hj2, hj1, ehj. rewrite t3get_t3tab by assumption.
+  rewrite !t3get_t3tab by assumption.
+  pose proof (conj_kinv_real sigma2 sigma2_nz sigma2_real) as Hc.
+  set (s := kinv sigma2) in *.
+  (* ksum (conj H_krx J_kq) : (dJ^H J)_rq ;  conj (ksum (conj H_kqx J_kr)) : (J^H dJ)_rq *)
+  rewrite (conj_mul F LS), (conj_mul F LS), Hc, (conj_1 F LS), ksum_conj.
+  rewrite (ksum_ext n (fun k => kconj (t3get H k r x) * mget J k q) (fun k => kconj (dd x (mget J k r)) * mget J k q))
+    by (intros k Hk; now rewrite (H_is_dJ x k r Hx Hk Hr)).
+  rewrite (ksum_ext n (fun i => kconj (kconj (t3get H i q x) * mget J i r)) (fun k => dd x (mget J k q) * kconj (mget J k r))).
+  2:{ intros k Hk. rewrite (conj_mul F LS), (conj_invol F LS). now rewrite (H_is_dJ x k q Hx Hk Hq). }
+  set (S1 := ksum n (fun k => kconj (dd x (mget J k r)) * mget J k q)).
+  set (S2 := ksum n (fun k => dd x (mget J k q) * kconj (mget J k r))).
+  (* the spec side: kre (conj S2' + ...) ; S1 = conj of (J^H dJ)_qr etc. *)
+  assert (E1 : ksum n (fun k => kconj (dd x (mget J k q)) * mget J k r) = kconj S2).
+  { unfold S2. rewrite ksum_conj. apply ksum_ext. intros k _.
+    rewrite (conj_mul F LS), (conj_invol F LS). reflexivity. }
+  assert (E2 : ksum n (fun k => kconj (mget J k q) * dd x (mget J k r)) = kconj S1).
+  { unfold S1. rewrite ksum_conj. apply ksum_ext. intros k _.
+    rewrite (conj_mul F LS), (conj_invol F LS). ring. }
+  rewrite E1, E2.
+  replace (S1 * k1 * s + S2 * k1 * s) with (s * (S1 + S2)) by ring.
+  rewrite (kre_real_mul s _ Hc). f_equal.
+  rewrite !kre_add, !kre_conj. ring.
+Qed.
+
+(* the returned gradient is the exact derivative of the returned cost *)
+Theorem crlb_grad_exact x : (x < nx)%nat ->
+  vget (crlb_grad inv n p nx J H W sigma2) x = dd x (crlb inv n p J W sigma2).
+Proof.
+  intros Hx. pose proof (DD x Hx) as D.
+  rewrite crlb_unfold.
+  rewrite (d_wtrace p (mget A) (mget (inv A)) inv_r inv_l (dd x) D (wget W)) by (intros; now apply W_const).
+  unfold crlb_grad, crlb_lb. fold A.
+  rewrite vget_map_opp by (unfold egrad; now rewrite length_tab).
+  f_equal. unfold egrad. rewrite vget_tab by exact Hx.
+  apply ksum_ext. intros a Ha. apply ksum_ext. intros q Hq. apply ksum_ext. intros r Hr.
+  unfold wscale, t3re. rewrite mget_mtab by assumption. rewrite t3get_t3tab by assumption.
+  rewrite (hj_is_dfisher x q r Hx Hq Hr). reflexivity.
+Qed.
+
+End Crlb.
+
+(* ---- confint *)
+Section Confint.
+Variable inv : mat F -> mat F.
+Variables (n p : nat) (obs pred : list F) (J : mat F).
+
+Definition res_spec (k : nat) : F := vget obs k - vget pred k.
+Definition sse_spec : F := kre (ksum n (fun k => res_spec k * kconj (res_spec k))).
+Definition gram_spec (a b : nat) : F := kre (ksum n (fun k => kconj (mget J k a) * mget J k b)).
+(* residual-weighted Hessian term of the property: Re(sum_n conj(H_n[b][a]) res_n) *)
+Definition hterm_spec (H : ten3 F) (a b : nat) : F := kre (ksum n (fun k => kconj (t3get H k b a) * res_spec k)).
+(* what the present code computes instead *)
+Definition hterm_outer (H : ten3 F) (a b : nat) : F :=
+  kre (ksum n (fun k => ksum n (fun y => kconj (t3get H k b a) * res_spec y))).
+
+Lemma sse_entries : sse n (residual n obs pred) = sse_spec.
+Proof.
+  unfold sse, sse_spec, residual. f_equal. apply ksum_ext. intros k Hk.
+  now rewrite vget_tab by exact Hk.
+Qed.
+
+Lemma info_entries_nohess outer plus a b : (a < p)%nat -> (b < p)%nat ->
+  mget (confint_info outer plus n p J None (residual n obs pred)) a b = gram_spec a b.
+Proof.
+  intros Ha Hb. simpl. unfold mre, gram, gram_spec. rewrite mget_mtab by assumption. now rewrite mget_mtab.
+Qed.
+
+Lemma info_entries_hess outer plus H a b : (a < p)%nat -> (b < p)%nat ->
+  mget (confint_info outer plus n p J (Some H) (residual n obs pred)) a b =
+  let t := if outer then hterm_outer H a b else hterm_spec H a b in
+  if plus then gram_spec a b + t else gram_spec a b - t.
+Proof.
+  intros Ha Hb. simpl. unfold hmle. rewrite mget_mtab by assumption.
+  assert (G : mget (mre p p (gram n p J)) a b = gram_spec a b).
+  { unfold mre, gram, gram_spec. rewrite mget_mtab by assumption. now rewrite mget_mtab. }
+  assert (T : mget (hess_term outer n p H (residual n obs pred)) a b =
+              if outer then hterm_outer H a b else hterm_spec H a b).
+  { unfold hess_term, mre. rewrite mget_mtab by assumption. destruct outer.
+    - unfold ehess_outer, hterm_outer. rewrite mget_mtab by assumption. f_equal.
+      apply ksum_ext. intros k Hk. apply ksum_ext. intros y Hy.
+      unfold residual, res_spec. now rewrite vget_tab by exact Hy.
+    - unfold ehess_contract, hterm_spec. rewrite mget_mtab by assumption. f_equal.
+      apply ksum_ext. intros k Hk. unfold residual, res_spec. now rewrite vget_tab by exact Hk. }
+  rewrite G, T. reflexivity.
+Qed.
+
+Variables (outer plus : bool) (H : option (ten3 F)).
+Let M := confint_info outer plus n p J H (residual n obs pred).
+Hypothesis inv_r : is_rinv p (mget M) (mget (inv M)).
+Hypothesis inv_l : is_rinv p (mget (inv M)) (mget M).
+
+(* the matrix that the property prescribes *)
+Definition info_spec (a b : nat) : F :=
+  match H with None => gram_spec a b | Some h => gram_spec a b - hterm_spec h a b end.
+(* the matrix that the code (with the switches read from the source) inverts *)
+Definition info_code (a b : nat) : F :=
+  match H with
+  | None => gram_spec a b
+  | Some h => let t := if outer then hterm_outer h a b else hterm_spec h a b in
+              if plus then gram_spec a b + t else gram_spec a b - t
+  end.
+
+Lemma info_code_entries a b : (a < p)%nat -> (b < p)%nat -> mget M a b = info_code a b.
+Proof.
+  intros Ha Hb. unfold M, info_code. destruct H.
+  - now apply info_entries_hess.
+  - now apply info_entries_nohess.
+Qed.
+
+(* variances returned by the model = SSE/dof * diag of THE inverse of the code's information matrix *)
+Theorem confint_code_formula (B : nat -> nat -> F) : is_rinv p info_code B ->
+  forall a, (a < p)%nat ->
+  vget (confint_var inv outer plus n p obs pred J H) a = B a a * (sse_spec * kinv (kofnat (n - p))).
+Proof.
+  intros HB a Ha. unfold confint_var, confint_cov. fold M. rewrite vget_tab by exact Ha.
+  rewrite mget_mtab by assumption. rewrite sse_entries. f_equal. symmetry.
+  apply (inv_unique p (mget M) (mget (inv M)) inv_l B); try assumption.
+  apply (is_rinv_ext p info_code (mget M) B B); auto.
+  intros i j Hi Hj. symmetry. now apply info_code_entries.
+Qed.
+
+(* when the switches are (contract, minus) -- or no Hessian is given -- this is the property's formula *)
+Theorem confint_formula (B : nat -> nat -> F) :
+  (H = None \/ (outer = false /\ plus = false)) ->
+  is_rinv p info_spec B ->
+  forall a, (a < p)%nat ->
+  vget (confint_var inv outer plus n p obs pred J H) a = B a a * (sse_spec * kinv (kofnat (n - p))).
+Proof.
+  intros Hsw HB. apply confint_code_formula.
+  apply (is_rinv_ext p info_spec info_code B B); auto.
+  intros i j _ _. unfold info_spec, info_code. destruct H as [h|]; [|reflexivity].
+  destruct Hsw as [Hn|[-> ->]]; [discriminate|reflexivity].
+Qed.
+
+(* confidence band variances: Re(sum_ab conj(J_ka) cov_ab J_kb) *)
+Theorem confint_predvar_formula k : (k < n)%nat ->
+  vget (confint_predvar inv outer plus n p obs pred J H) k =
+  kre (ksum p (fun a => ksum p (fun b =>
+     kconj (mget J k a) * (mget (inv M) a b * (sse_spec * kinv (kofnat (n - p)))) * mget J k b))).
+Proof.
+  intros Hk. unfold confint_predvar, epredvar. rewrite vget_tab by exact Hk. rewrite vget_tab by exact Hk.
+  f_equal. apply ksum_ext. intros a Ha. apply ksum_ext. intros b Hb.
+  unfold confint_cov. fold M. rewrite mget_mtab by assumption. now rewrite sse_entries.
+Qed.
+
+(* the half-widths are tval * sqrt(variance), for the square root and t value handed in *)
+Theorem confint_cints_formula (sqrt : F -> F) (tval : F) a : (a < p)%nat ->
+  vget (confint_cints inv sqrt tval outer plus n p obs pred J H) a =
+  tval * sqrt (vget (confint_var inv outer plus n p obs pred J H) a).
+Proof.
+  intros Ha. unfold confint_cints, vget.
+  rewrite (nth_indep _ k0 (tval * sqrt k0)).
+  - exact (map_nth (fun v => tval * sqrt v) _ k0 a).
+  - rewrite map_length. unfold confint_var. now rewrite length_tab.
+Qed.
+
+End Confint.
+
+(* batch axes *)
+Lemma crlb_batch_nth inv n p (Js : list (mat F)) W sigma2 i : (i < length Js)%nat ->
+  nth i (crlb_batch inv n p Js W sigma2) k0 = crlb inv n p (nth i Js []) W sigma2.
+Proof.
+  intros Hi. unfold crlb_batch.
+  rewrite (nth_indep _ k0 (crlb inv n p [] W sigma2)) by now rewrite map_length.
+  exact (map_nth (fun J => crlb inv n p J W sigma2) Js [] i).
+Qed.
+
+(* the checked inverse: when [inv_ok_b] answers true the inverse hypotheses hold *)
+Lemma meqb_true p (A B : mat F) : meqb p A B = true ->
+  forall i j, (i < p)%nat -> (j < p)%nat -> mget A i j = mget B i j.
+Proof.
+  unfold meqb. intros Hm i j Hi Hj. rewrite forallb_forall in Hm.
+  specialize (Hm i). rewrite in_seq in Hm. specialize (Hm ltac:(lia)).
+  rewrite forallb_forall in Hm. specialize (Hm j). rewrite in_seq in Hm. specialize (Hm ltac:(lia)).
+  now apply (keqb_eq F LS).
+Qed.
+
+Theorem inv_ok_b_sound inv p (A : mat F) : inv_ok_b inv p A = true ->
+  is_rinv p (mget A) (mget (inv A)) /\ is_rinv p (mget (inv A)) (mget A).
+Proof.
+  unfold inv_ok_b. rewrite andb_true_iff. intros [H1 H2]. split; intros i j Hi Hj.
+  - pose proof (meqb_true p _ _ H1 i j Hi Hj) as E. unfold lmul, mident in E.
+    rewrite !mget_mtab in E by assumption. exact E.
+  - pose proof (meqb_true p _ _ H2 i j Hi Hj) as E. unfold lmul, mident in E.
+    rewrite !mget_mtab in E by assumption. exact E.
+Qed.
+
+(* the adjugate inverse is an inverse, symbolically, for 1x1 and 2x2 matrices with non-zero determinant *)
+Ltac mat_red := cbv [det ksum ksign Nat.even length nth map drop_nth firstn skipn app minor mget mtab tab seq
+  fmul kdelta Nat.eqb Nat.sub Nat.add].
+
+Lemma minv_adj_1x1 (a : F) : a <> k0 ->
+  is_rinv 1 (mget [[a]]) (mget (minv_adj [[a]])) /\ is_rinv 1 (mget (minv_adj [[a]])) (mget [[a]]).
+Proof.
+  intros Ha.
+  assert (Hd : det 1 [[a]] = a) by (mat_red; ring).
+  pose proof (kinv_l F L a Ha) as Hv.
+  split; intros i j Hi Hj; assert (i = 0)%nat by lia; assert (j = 0)%nat by lia; subst;
+    unfold minv_adj; cbv zeta; cbn [length]; rewrite Hd; set (v := kinv a) in *; clearbody v;
+    mat_red; (transitivity (v * a); [ring | exact Hv]).
+Qed.
+
+Lemma minv_adj_2x2 (a b c e : F) : a * e - b * c <> k0 ->
+  let M := [[a; b]; [c; e]] in
+  is_rinv 2 (mget M) (mget (minv_adj M)) /\ is_rinv 2 (mget (minv_adj M)) (mget M).
+Proof.
+  intros Hd M.
+  assert (Hdet : det 2 M = a * e - b * c) by (unfold M; mat_red; ring).
+  pose proof (kinv_l F L _ Hd) as Hv.
+  split; intros i j Hi Hj;
+    (destruct i as [|[|i]]; [| |lia]); (destruct j as [|[|j]]; [| |lia]);
+    unfold minv_adj, M; cbv zeta; cbn [length]; fold M; rewrite Hdet;
+    set (v := kinv (a * e - b * c)) in *; clearbody v; unfold M; mat_red;
+    first [ ring | transitivity (v * (a * e - b * c)); [ring | exact Hv] ].
+Qed.
+
+End Sums.
+
+(* ================= Part 4: executable instance, witness, menu ================= *)
+From Coq Require Import Field Lqa.
+
+Lemma Qc_sumsq_nz (a b : Qc) : (a, b) <> (Q2Qc 0, Q2Qc 0) -> (a * a + b * b)%Qc <> Q2Qc 0.
+Proof.
+  intros H E. apply H. clear H.
+  assert (E' : (this a * this a + this b * this b == 0)%Q).
+  { transitivity (this (a * a + b * b)%Qc).
+    - change (this (a * a + b * b)%Qc) with (Qred (Qred (this a * this a) + Qred (this b * this b))).
+      rewrite !Qred_correct. reflexivity.
+    - rewrite E. reflexivity. }
+  assert (Ha : (this a == 0)%Q) by nra.
+  assert (Hb : (this b == 0)%Q) by nra.
+  f_equal; apply Qc_is_canon; simpl; assumption.
+Qed.
+
+Lemma QIFlaws : FieldLaws QIF.
+Proof.
+  constructor.
+  - exact QIlaws.
+  - intros [a b] Hx. simpl in *.
+    pose proof (Qc_sumsq_nz a b Hx) as Hd.
+    unfold qi_mul, qi_inv, qi1. simpl. apply qi_ext; simpl; field; exact Hd.
+  - apply qi_ext; simpl; apply Qc_is_canon; reflexivity.
+Qed.
+
+Lemma qi_eq_by_eqb (x y : QIF) : keqb x y = true -> x = y.
+Proof. apply (keqb_eq QIops QIlaws). Qed.
+Lemma qi_neq_by_eqb (x y : QIF) : keqb x y = false -> x <> y.
+Proof. intros H E. subst y. pose proof (proj2 (keqb_eq QIops QIlaws x x) eq_refl) as T. simpl in *. rewrite T in H. discriminate. Qed.
+
+(* The residual-weighted Hessian term.  Witness: one parameter, two points, J = (1,1), H = (1,0),
+   obs - pred = (1,2): Re(J^H J) = 2, sum_n conj(H_n) res_n = 1, so the property's matrix is 2 - 1 = 1 and the
+   variance is SSE/dof = 5.  Every other setting of the two switches gives another value
+   (outer,plus: 2 + 1*3 = 5 -> 1 ; outer,minus: 2 - 3 -> -5 ; contract,plus: 2 + 1 -> 5/3). *)
+Definition wit_J : mat QIF := [[qr 1 1]; [qr 1 1]].
+Definition wit_H : ten3 QIF := [[[qr 1 1]]; [[qr 0 1]]].
+Definition wit_obs : list QIF := [qr 1 1; qr 2 1].
+Definition wit_pred : list QIF := [qr 0 1; qr 0 1].
+
+Theorem confint_hessian_term_refuted (outer plus : bool) : outer = true \/ plus = true ->
+  exists (n p : nat) (obs pred : list QIF) (J : mat QIF) (H : ten3 QIF) (B : nat -> nat -> QIF),
+    let M := confint_info outer plus n p J (Some H) (residual n obs pred) in
+    (is_rinv QIF p (mget M) (mget (minv_adj M)) /\ is_rinv QIF p (mget (minv_adj M)) (mget M)) /\
+    is_rinv QIF p (info_spec QIF n obs pred J (Some H)) B /\
+    vget (confint_var minv_adj outer plus n p obs pred J (Some H)) 0%nat <>
+      (B 0%nat 0%nat * (sse_spec QIF n obs pred * kinv (kofnat (n - p))))%K.
+Proof.
+  intros Hsw.
+  exists 2%nat, 1%nat, wit_obs, wit_pred, wit_J, wit_H, (fun _ _ => qr 1 1).
+  assert (Hb : forall o pl, (o = true \/ pl = true) ->
+     inv_ok_b minv_adj 1%nat (confint_info o pl 2%nat 1%nat wit_J (Some wit_H) (residual 2%nat wit_obs wit_pred)) = true /\
+     keqb (vget (confint_var minv_adj o pl 2%nat 1%nat wit_obs wit_pred wit_J (Some wit_H)) 0%nat)
+          (@kmul QIF (qr 1 1) (sse_spec QIF 2%nat wit_obs wit_pred * kinv (kofnat (2 - 1)%nat)))%K = false).
+  { intros [|] [|] [E|E]; try discriminate E; split; vm_compute; reflexivity. }
+  destruct (Hb outer plus Hsw) as [Hi Hne].
+  split; [|split].
+  - exact (inv_ok_b_sound QIF QIFlaws minv_adj 1%nat _ Hi).
+  - intros i j Hi' Hj'. assert (i = 0)%nat by lia. assert (j = 0)%nat by lia. subst.
+    apply qi_eq_by_eqb. vm_compute. reflexivity.
+  - apply qi_neq_by_eqb. exact Hne.
+Qed.
+
+(* the contractions found in the source are the ones the model is written for *)
+Theorem einsum_menu_ok :
+  crlb_einsums = crlb_menu /\ crlb_split_einsums = crlb_split_menu /\
+  confint_einsums = confint_menu confint_hess_outer confint_hess_plus.
+Proof. repeat split; reflexivity. Qed.
+
+(* non-vacuity of the hypotheses of crlb_formula / crlb_grad_exact on the executed instance *)
+Example crlb_hyps_nonvacuous :
+  let J : mat QIF := [[qi 1 1 1 1; qi 0 1 2 1]; [qi 2 1 0 1; qi 1 1 (-1) 1]; [qi 0 1 1 1; qi 3 1 0 1]] in
+  let A := fisher (F:=QIF) 3%nat 2%nat (qr 2 1) J in
+  is_rinv QIF 2%nat (mget A) (mget (minv_adj A)) /\ is_rinv QIF 2%nat (mget (minv_adj A)) (mget A).
+Proof. intros J A. apply (inv_ok_b_sound QIF QIFlaws). vm_compute. reflexivity. Qed.
+
+(* ---- t table: a looked-up value is an entry of the generated table *)
+From Coq Require Import Reals Qreals.
+From Coquelicot Require Import Coquelicot.
+
+Theorem tstat_lookup_sound (level : Q) (nu : nat) (t : Q) :
+  List.Forall tstat_entry_ok tstat_table -> tstat_lookup level nu = Some t -> tstat_ok level nu t.
+Proof.
+  intros HF. unfold tstat_lookup.
+  destruct (find _ tstat_table) as [e|] eqn:E; [|discriminate].
+  intros [= <-]. apply find_some in E. destruct E as [Hin Hk].
+  rewrite List.Forall_forall in HF. specialize (HF e Hin).
+  apply andb_true_iff in Hk. destruct Hk as [Hl Hn].
+  apply Qeq_bool_eq in Hl. apply Nat.eqb_eq in Hn.
+  unfold tstat_entry_ok, tstat_ok in *. rewrite <- Hn, <- (Qeq_eqR _ _ Hl). exact HF.
+Qed.
+
+(* log10 variant: the returned pair (log10 cost, grad/cost/ln 10) is (value, exact derivative) of log10 o cost *)
+Theorem crlb_log_grad_exact (f : R -> R) (x g : R) :
+  is_derive f x g -> (0 < f x)%R ->
+  is_derive (fun u => crlb_log_cost (f u)) x (crlb_log_grad (f x) g).
+Proof.
+  intros Hf Hp. unfold crlb_log_cost, crlb_log_grad.
+  assert (Hl : is_derive (fun u => ln (f u)) x (g / f x)%R).
+  { apply (is_derive_comp ln f x (/ f x)%R g) in Hf.
+    - replace (g / f x)%R with (scal g (/ f x)%R); [exact Hf|].
+      unfold scal; simpl; unfold mult; simpl. unfold Rdiv. reflexivity.
+    - apply is_derive_Reals. apply derivable_pt_lim_ln. exact Hp. }
+  replace (g / f x / ln 10)%R with (scal (/ ln 10)%R (g / f x)%R).
+  - apply (is_derive_ext (fun u => scal (/ ln 10)%R (ln (f u)))).
+    + intros u. unfold scal; simpl; unfold mult; simpl. unfold Rdiv. apply Rmult_comm.
+    + apply is_derive_scal. exact Hl.
+  - unfold scal; simpl; unfold mult; simpl. unfold Rdiv. apply Rmult_comm.
+Qed.
